@@ -161,7 +161,14 @@ const wrapper = {
   y: (elem, v) => { elem.attrs.y = v },
   i: (elem, v) => { elem.attrs.i = v },
   s: (elem, v) => { elem.attrs.s = v },
-  v: (elem, name, v) => { elem.attrs['v:' + name] = v },
+  // R.v(elem, event, handler, final, mutated, capture, isDynamic): a dynamic handler replaces the listener its previous call
+  // attached; a static one is added
+  v: (elem, name, v, fin, mut, cap, dyn) => {
+    elem.attrs['v:' + name] = v
+    const L = elem.lst || (elem.lst = {})
+    L[name] = dyn ? [v] : (L[name] || []).concat([v])
+    elem.attrs['vl:' + name] = L[name].slice()
+  },
   p: (elem, name, v) => { elem.attrs['p:' + name] = v },
   setFnFilter: () => {},
   setEventListenerWrapper: () => {},
